@@ -79,6 +79,7 @@ def shards(tier):
         for p in range(32):
             out.append(("order", "triples", p, 32))
     out.append(("len",))
+    out.append(("framesub",))
     return out
 
 
@@ -464,6 +465,42 @@ def run_shard(shard):
         if dmap.mapping != snap:
             add_violation(res, "C01:map-mutated", f"decoding mutated the instance map {mk}", {"bits": 24, "value": 0, "dt": 0, "map": mk})
         sample(res, {"bits": 24, "scheme": "all five event schemes", "map": mk, "frames": n})
+    elif kind == "framesub":
+        # "any forward frame": also an instance of an application subclass of ForwardFrame - a trivial one and one whose
+        # constructor takes more than (bits, data), e.g. a sniffer's frame with a timestamp - known and unknown frames, any length
+        class PlainSub(FF):
+            pass
+
+        class Stamped(FF):
+            def __init__(self, bits, data, timestamp):
+                super().__init__(bits, data)
+                self.timestamp = timestamp
+        n = 0
+        probes = [(16, v) for v in (0x0000, 0x01FE, 0x0100, 0x01E0, 0x01FF, 0xA100, 0xA300, 0xC106, 0xCB00, 0xA000, 0xFD01, 0xBB00, 0xB9FF)] + \
+                 [(24, v) for v in (0x01FE30, 0xC10000, 0xC10301, 0x07FE7F, 0x000400, 0x008002, 0xC30000, 0xFDFE00, 0x7E8C0F)] + \
+                 [(8, 0x55), (25, 0x1FFFFFF), (17, 0x10000), (1, 1), (64, 1 << 63)]
+        for bits, v in probes:
+            for dt in (0, 6, 8):
+                want = None
+                for label, mkf in (("ForwardFrame", lambda: FF(bits, v)), ("trivial subclass", lambda: PlainSub(bits, v)),
+                                   ("subclass with its own constructor", lambda: Stamped(bits, v, 12.5))):
+                    case = {"bits": bits, "value": v, "dt": dt, "map": "nomap", "framesub": label}
+                    n += 1
+                    try:
+                        r = from_frame(mkf(), devicetype=dt)
+                        got = (type(r).__module__, type(r).__name__, len(r.frame), r.frame.as_integer, str(r))
+                    except Exception as e:
+                        add_violation(res, "C01:frame-subclass:raises", f"from_frame(<{label}>({bits},{v:#x}), dt={dt}) raised {e!r}", case)
+                        continue
+                    if want is None:
+                        want = got
+                    elif got != want:
+                        add_violation(res, "C01:frame-subclass:differs", f"from_frame(<{label}>({bits},{v:#x}), dt={dt}) -> {got}, with a plain ForwardFrame {want}", case)
+                    if got[2:4] != (bits, v):
+                        add_violation(res, "C01:frame-not-identical:sub", f"<{label}>({bits},{v:#x}): decoded object carries {got[2:4]}", case)
+                res["distinct"].add(("framesub", bits))
+        res["evaluations"] += n
+        sample(res, {"frame_subclass_decodes": n})
     elif kind == "len":
         n = 0
         for bits in range(1, 65):
@@ -526,6 +563,8 @@ def replay(case):
         return run_shard(("order", "threads", 0, 1))["violations"]
     if "mapmut" in case:
         return run_shard(("order", "mapmut", 0, 1))["violations"]
+    if "framesub" in case:
+        return run_shard(("framesub",))["violations"]
     if "first" in case:
         return run_shard(("order", "first", 0, 1))["violations"]
     if "order" in case:
